@@ -100,28 +100,35 @@ def expThenEnd (s : Str) : Bool :=
       | _ => false
     else false
 
-/-- does `float(s)` succeed (ASCII `s`)? -/
-def pyFloatOk (s : Str) : Bool :=
-  let t := strip s
-  let t := match t with
-    | '+' :: r => r
-    | '-' :: r => r
-    | _ => t
+def dropSign : Str → Str
+  | '+' :: r => r
+  | '-' :: r => r
+  | t => t
+
+def isInfNan (t : Str) : Bool :=
   let l := lower t
-  if l == "inf".toList || l == "infinity".toList || l == "nan".toList then true
-  else match t with
-    | '.' :: r =>
+  l == ['i', 'n', 'f'] || l == ['i', 'n', 'f', 'i', 'n', 'i', 't', 'y'] || l == ['n', 'a', 'n']
+
+/-- `digitpart [. [digitpart]] [exponent] | . digitpart [exponent]` to the end of the string -/
+def floatBody (t : Str) : Bool :=
+  match t with
+  | '.' :: r =>
+    match dropDigitPart r with
+    | some rest => expThenEnd rest
+    | none => false
+  | _ =>
+    match dropDigitPart t with
+    | none => false
+    | some ('.' :: r) =>
       match dropDigitPart r with
       | some rest => expThenEnd rest
-      | none => false
-    | _ =>
-      match dropDigitPart t with
-      | none => false
-      | some ('.' :: r) =>
-        match dropDigitPart r with
-        | some rest => expThenEnd rest
-        | none => expThenEnd r
-      | some rest => expThenEnd rest
+      | none => expThenEnd r
+    | some rest => expThenEnd rest
+
+/-- does `float(s)` succeed (ASCII `s`)? -/
+def pyFloatOk (s : Str) : Bool :=
+  let t := dropSign (strip s)
+  if isInfNan t then true else floatBody t
 
 /-- content of `re.match(r"'(.*)'", v)` (no line breaks in scope): between the first and the last quote -/
 def quoted? (v : Str) : Option Str :=
@@ -259,15 +266,17 @@ structure Feature where
   strand : Int
 deriving Repr, DecidableEq
 
-/-- `find_specification_label_in_feature` -/
+/-- a qualifier value that starts with `@` or `~` -/
+def specLabel? (v : Option Str) : Option Str :=
+  match v with
+  | some (c :: r) => if c == '@' || c == '~' then some (c :: r) else none
+  | _ => none
+
+/-- `find_specification_label_in_feature`: the `label` qualifier first, then `note` -/
 def findLabel (f : Feature) : Option Str :=
-  let ok (v : Option Str) : Option Str :=
-    match v with
-    | some (c :: r) => if c == '@' || c == '~' then some (c :: r) else none
-    | _ => none
-  match ok f.label with
+  match specLabel? f.label with
   | some l => some l
-  | none => ok f.note
+  | none => specLabel? f.note
 
 structure Located where
   spec : Parsed
